@@ -33,8 +33,12 @@ RULES = {
     "for OSError / Exception / BaseException does not re-raise - buffered bytes reach the file when it is flushed or closed, so "
     "an error swallowed there (disk full, quota, I/O error) lets the save report success and replace the good data file by "
     "one with holes; only the removal of temporary files may ignore that they are already gone",
+    "R9": "who may invalidate, and whom: outside the tensor class itself, an external tensor is invalidated only in a function that replaces a "
+    "file with os.replace, and only as an element of a collection selected by file identity (a filter that reaches os.path.samefile) - "
+    "never by comparing names: `os.path.normpath(t.location) == os.path.normpath(relative_path)` also matches a file of the same name in "
+    "another directory, whose bytes nobody touched, and misses the same file reached through a link",
 }
-FLOORS = {"R1": 5, "R2": 2, "R3": 4, "R4": 3, "R5": 1, "R6": 1, "R7": 1, "R8": 12}
+FLOORS = {"R1": 5, "R2": 2, "R3": 4, "R4": 3, "R5": 1, "R6": 1, "R7": 1, "R8": 12, "R9": 1}
 EXPLANATION = (
     "Path-taint analysis (temp-derived vs destination-derived) over every file-system call of the single-file "
     "writer, dominator queries for the write → replace → invalidate ordering, try/finally structure of the "
@@ -532,7 +536,68 @@ def rule_r8(ctx):
     ctx.require(n >= 12, f"only {n} data-bearing file operations found on the write path")
 
 
+def _reaches_samefile(repo, m, e, depth=0) -> bool:
+    """The expression calls os.path.samefile, directly or through a function of the module."""
+    for c in ast.walk(e):
+        if not isinstance(c, ast.Call):
+            continue
+        d = dotted_of(c.func) or ""
+        if d.endswith("samefile"):
+            return True
+        g = m.functions.get(d)
+        if g is not None and depth < 3 and not isinstance(g.node, ast.Lambda) and any(_reaches_samefile(repo, m, st, depth + 1) for st in g.node.body):
+            return True
+    return False
+
+
+def rule_r9(ctx):
+    repo = ctx.repo
+    n = 0
+    for m in repo.pkg_modules():
+        for f in m.all_funcs:
+            if isinstance(f.node, ast.Lambda) or (f.owner_class is not None and f.owner_class.name in ("ExternalTensor", "MetadataStore")):
+                continue
+            for c in calls_in(f):
+                if not (isinstance(c.func, ast.Attribute) and c.func.attr == "invalidate" and not c.args and not c.keywords):
+                    continue
+                n += 1
+                replaces = any((dotted_of(x.func) or "") in ("os.replace", "os.rename", "shutil.move") for x in calls_in(f))
+                # the receiver is the target of a loop over a local collection …
+                recv = c.func.value
+                loop = getattr(c, "_parent", None)
+                while loop is not None and not (isinstance(loop, ast.For) and isinstance(loop.target, ast.Name) and isinstance(recv, ast.Name) and loop.target.id == recv.id):
+                    loop = getattr(loop, "_parent", None)
+                selected = False
+                if loop is not None and isinstance(loop.iter, ast.Name):
+                    defs = [a.value for a in own_nodes(f.node) if isinstance(a, (ast.Assign, ast.AnnAssign)) and a.value is not None
+                            and any(isinstance(t, ast.Name) and t.id == loop.iter.id for t in (a.targets if isinstance(a, ast.Assign) else [a.target]))]
+                    # … every definition of which filters by file identity
+                    selected = bool(defs) and all(isinstance(v, (ast.ListComp, ast.SetComp, ast.GeneratorExp)) and any(
+                        _reaches_samefile(repo, m, cond) for g in v.generators for cond in g.ifs) for v in defs)
+                    if not selected and defs:
+                        # or a loop that appends under such a test
+                        apps = [x for x in calls_in(f) if isinstance(x.func, ast.Attribute) and x.func.attr in ("append", "add") and norm(x.func.value) == loop.iter.id]
+                        def guarded(x):
+                            p = getattr(x, "_parent", None)
+                            while p is not None and p is not f.node:
+                                if isinstance(p, ast.If) and _reaches_samefile(repo, m, p.test):
+                                    return True
+                                p = getattr(p, "_parent", None)
+                            return False
+                        selected = bool(apps) and all(guarded(x) for x in apps) and all(
+                            isinstance(v, (ast.List, ast.Set)) and not v.elts or (isinstance(v, ast.Call) and dotted_of(v.func) in ("list", "set") and not v.args) for v in defs)
+                ok = replaces and selected
+                why = ("the function replaces no file" if not replaces else "the tensors are not selected by file identity (no filter that reaches os.path.samefile decides which ones are invalidated)")
+                ctx.check("R9", f"{f.local}: {norm(c)} only for tensors whose file was replaced", ok, f, c,
+                          f"`{norm(c)}`: {why} - a tensor is invalidated although the bytes of its backing file were not replaced (a file of the same name in another "
+                          "directory), so reading it raises and the model cannot be saved again, while the file it points to is intact",
+                          how="invalidate() call sites outside the tensor class: enclosing function calls os.replace; receiver ranges over a collection filtered through os.path.samefile",
+                          construct=f"invalidate in {f.local}")
+    ctx.require(n >= 1, "no invalidate() call found outside the tensor class")
+
+
 def run(ctx):
+    rule_r9(ctx)
     rule_r8(ctx)
     rule_r7(ctx)
     rule_r6(ctx)
